@@ -75,6 +75,20 @@ func SubMessages(md protoreflect.MessageDescriptor) (labels []string, encs [][]b
 			break
 		}
 	}
+	// an explicit zero for the scalar that value A sets (no encoder emits it; a later occurrence carrying it resets the field)
+	for si, sl := range sp.Slots {
+		_ = si
+		if sl.Oneof != "" || sl.FD == nil || sl.FD.IsList() || sl.FD.IsMap() || sl.FD.Kind() == protoreflect.MessageKind || sl.FD.Kind() == protoreflect.GroupKind {
+			continue
+		}
+		z := ScalarAlphabet(sl.FD, Reduced)[0]
+		if !IsZeroScalar(sl.FD, z) {
+			continue
+		}
+		labels = append(labels, "{"+sl.Name+"=explicit-zero}")
+		encs = append(encs, append(tagBytes(protowire.Number(sl.FD.Number()), wireTypeOf(sl.FD.Kind())), specScalar(nil, sl.FD, z)...))
+		break
+	}
 	// two different unknown records: several occurrences of the field must keep both, in arrival order (also the only
 	// non-empty values a message type WITHOUT fields has)
 	ua := UnknownAlphabet(md, Reduced)
